@@ -340,7 +340,11 @@ func c04Judge(p C04Phase, wn *WNode, n *netceptor.Netceptor, started time.Time) 
 			labels = append(labels, "crash-at:"+f[1]+":"+f[2])
 		}
 	}
-	runnerKilled := bytes.Contains(hookHits, []byte(" runner "))
+	// a runner that outlives the daemon keeps its crash point armed and may reach it only after the restart: read the log when judging
+	runnerKilledFn := func() bool {
+		b, _ := os.ReadFile(filepath.Join(p.Dir, "crash.log"))
+		return bytes.Contains(b, []byte(" runner "))
+	}
 	remoteIDSavedHit := bytes.Count(hookHits, []byte(" daemon remote.after_unitid_saved"))
 	remoteCmdAcked := 0
 	for _, id := range order {
@@ -450,7 +454,7 @@ func c04Judge(p C04Phase, wn *WNode, n *netceptor.Netceptor, started time.Time) 
 			return fmt.Sprintf("still %s (%q)", workceptor.WorkStateToString(last.State), last.Detail)
 		})
 		if msg != "" {
-			if runnerKilled {
+			if runnerKilledFn() {
 				unconstrained++
 				continue // the unit's runner process itself was killed: nobody is left to report for the command
 			}
@@ -482,11 +486,11 @@ func c04Judge(p C04Phase, wn *WNode, n *netceptor.Netceptor, started time.Time) 
 					diverged = ""
 				}
 			}
-			if diverged != "" && !runnerKilled && vx.IsKnown("C04", abandonedSig) {
+			if diverged != "" && !runnerKilledFn() && vx.IsKnown("C04", abandonedSig) {
 				knownC04[abandonedSig]++
 				continue
 			}
-			if diverged != "" && !runnerKilled {
+			if diverged != "" && !runnerKilledFn() {
 				return vx.Violation("followed-to-completion", abandonedSig, "unit %s (%s): %s 6 s after the restart: the command had been launched and is not being followed (crash points hit: %s)", id, u.kind, diverged, strings.TrimSpace(string(hookHits)))
 			}
 			labels = append(labels, "never-started-reported-failed")
@@ -500,14 +504,14 @@ func c04Judge(p C04Phase, wn *WNode, n *netceptor.Netceptor, started time.Time) 
 			// complete output can still be fetched
 			res := fetchResults("unix", wn.Sock, id, 0, false, 30*time.Second)
 			if !strings.HasPrefix(res.first, "Streaming results") || !res.eof || string(res.data) != want {
-				if runnerKilled {
+				if runnerKilledFn() {
 					unconstrained++
 					continue
 				}
 				return vx.Violation("output-still-fetchable", "C04/output-incomplete:"+u.kind, "unit %s (%s) is reported %s with %d bytes; 'work results' returned %q... (%d of %d bytes, closed %v)", id, u.kind,
 					workceptor.WorkStateToString(last.State), last.StdoutSize, res.first, len(res.data), len(want), res.eof)
 			}
-			if last.StdoutSize != int64(len(want)) && !runnerKilled {
+			if last.StdoutSize != int64(len(want)) && !runnerKilledFn() {
 				return vx.Violation("output-still-fetchable", "C04/size-wrong:"+u.kind, "unit %s (%s) finished with StdoutSize %d, its output has %d bytes", id, u.kind, last.StdoutSize, len(want))
 			}
 			labels = append(labels, "completed:"+u.kind)
